@@ -11,6 +11,7 @@ is the *correct* answer at the second one and is accepted (`C05_history` says ex
 `ThreadRng` does not repeat is outside any model (C15).
 -/
 import WowSrp.Model.Srp
+import WowSrp.Model.Rng
 import WowSrp.Lemmas.Layout
 namespace WowSrp
 open WowSrp.Layout
@@ -270,6 +271,225 @@ theorem C05_changed_client_data (C : Crypto) (s : SrpServer) (cd cd' draw : Byte
   C05_other_inputs_collision C s cd draw _ cd' _ _ hcd hcd' hc hc hK hK
     (by intro h; simp only [Prod.mk.injEq] at h; exact hne h.2.1) hacc
 
+/-! ### replay and the RNG stream: the distinctness hypothesis is about the draws
+
+`C05_replay_in_history` has the hypothesis `hne : challengeOnOffer … i ≠ challengeOnOffer … j`. Here the
+challenges are tied to the model of the RNG (`Model/Rng.lean`, `drawBytes`): after every attempt —
+whatever the verdict — the server takes the next `Gen.reconnectDataLength` = 16 bytes from the front of
+the stream (`ReconnectData::randomize_data`). The draws of a history of `n` attempts are therefore the
+first `n` consecutive 16-byte segments of the stream, `r₀, r₁, …`, and the challenge on offer before
+attempt `i` is the login challenge for `i = 0` and `r_(i-1)` otherwise. -/
+
+/-- `ReconnectData::randomize_data`: the next `Gen.reconnectDataLength` bytes of the RNG stream -/
+def drawChallenge (rng : Bytes) : Option (Bytes × Bytes) := drawBytes Gen.reconnectDataLength rng
+
+/-- a list of presented pairs `(client challenge bytes, proof)` run against one server object and the
+    RNG stream, in program order: compare, then draw the next challenge from the front of the stream.
+    Result: the verdicts and the unused rest of the stream; `none` = the stream ran out -/
+def runHistoryRng (C : Crypto) : SrpServer → List (Bytes × Bytes) → Bytes → Option (List Bool × Bytes)
+  | _, [], rng => some ([], rng)
+  | s, (cd, proof) :: rest, rng =>
+    match drawChallenge rng with
+    | none => none
+    | some (draw, rng') =>
+      let r := s.verifyReconnectionAttempt C cd proof draw
+      (runHistoryRng C r.2 rest rng').map fun (vs, out) => (r.1 :: vs, out)
+
+/-- the first `n` consecutive 16-byte segments of a stream: `r₀ = bytes 0‥15`, `r₁ = bytes 16‥31`, … -/
+def drawList : Nat → Bytes → List Bytes
+  | 0, _ => []
+  | n+1, rng => rng.take 16 :: drawList n (rng.drop 16)
+
+/-- presented pairs together with the draw made after each of them: an `Attempt` history -/
+def withDraws (pairs : List (Bytes × Bytes)) (draws : List Bytes) : List Attempt :=
+  List.zipWith (fun p d => (p.1, p.2, d)) pairs draws
+
+/-- tie to the source: a reconnect challenge is 16 bytes (regenerated on every run) -/
+theorem C05_challenge_width : Gen.reconnectDataLength = 16 := by decide
+
+@[simp] theorem drawList_length (n : Nat) (rng : Bytes) : (drawList n rng).length = n := by
+  induction n generalizing rng with
+  | zero => rfl
+  | succ n ih => simp [drawList, ih]
+
+/-- **the draws are the stream's segments**: draw `k` is bytes `16k ‥ 16k+15` of the stream -/
+theorem C05_draws_are_segments (n : Nat) (rng : Bytes) (k : Nat) (hk : k < n) :
+    (drawList n rng)[k]? = some ((rng.drop (16 * k)).take 16) := by
+  induction n generalizing rng k with
+  | zero => omega
+  | succ n ih =>
+    cases k with
+    | zero => simp [drawList]
+    | succ k =>
+      simp only [drawList, List.getElem?_cons_succ]
+      rw [ih (rng.drop 16) k (by omega), List.drop_drop]
+      congr 3
+      omega
+
+/-- when the stream is long enough every draw has exactly 16 bytes -/
+theorem C05_draws_width (n : Nat) (rng : Bytes) (hlen : 16 * n ≤ rng.length) :
+    ∀ d ∈ drawList n rng, d.length = 16 := by
+  induction n generalizing rng with
+  | zero => intro d hd; simp [drawList] at hd
+  | succ n ih =>
+    intro d hd
+    simp only [drawList, List.mem_cons] at hd
+    rcases hd with rfl | hd
+    · rw [List.length_take]; omega
+    · exact ih (rng.drop 16) (by rw [List.length_drop]; omega) d hd
+
+/-- **link to the `Attempt` histories of `runHistory`**: running `n` presented pairs against the stream
+    succeeds iff the stream holds `16·n` bytes; the verdicts are those of the history whose draws are the
+    first `n` segments of the stream, and exactly `16·n` bytes are consumed, from the front -/
+theorem C05_history_rng (C : Crypto) (s : SrpServer) (pairs : List (Bytes × Bytes)) (rng : Bytes) :
+    runHistoryRng C s pairs rng =
+      if rng.length < 16 * pairs.length then none
+      else some (runHistory C s (withDraws pairs (drawList pairs.length rng)),
+                 rng.drop (16 * pairs.length)) := by
+  induction pairs generalizing s rng with
+  | nil => simp [runHistoryRng, withDraws, runHistory]
+  | cons a rest ih =>
+    obtain ⟨cd, proof⟩ := a
+    simp only [runHistoryRng, drawChallenge, drawBytes, C05_challenge_width, List.length_cons]
+    by_cases hl : rng.length < 16
+    · rw [if_pos hl, if_pos (by omega)]
+    · rw [if_neg hl]
+      simp only
+      rw [ih]
+      have hd : (rng.drop 16).length = rng.length - 16 := List.length_drop
+      by_cases hl2 : rng.length < 16 * (rest.length + 1)
+      · rw [if_pos (by omega), if_pos hl2]; rfl
+      · rw [if_neg (by omega), if_neg hl2]
+        simp only [Option.map_some, drawList, withDraws, List.zipWith_cons_cons, runHistory,
+          List.drop_drop]
+        congr 3
+        omega
+
+/-- the verdict at one position of such a history: it is the comparison of the presented proof with
+    the hash over the challenge on offer there -/
+theorem runHistory_withDraws_getElem? (C : Crypto) (s : SrpServer) (pairs : List (Bytes × Bytes))
+    (draws : List Bytes) (hl : draws.length = pairs.length) (i : Nat) (cd proof c : Bytes)
+    (hp : pairs[i]? = some (cd, proof))
+    (hc : (s.reconnectChallengeData :: draws)[i]? = some c) :
+    (runHistory C s (withDraws pairs draws))[i]? =
+      some (calculateReconnectProof C s.username.asRef cd c s.sessionKey == proof) := by
+  induction pairs generalizing s draws i with
+  | nil => simp at hp
+  | cons a rest ih =>
+    cases draws with
+    | nil => simp at hl
+    | cons d ds =>
+      obtain ⟨cd0, proof0⟩ := a
+      cases i with
+      | zero =>
+        simp only [List.getElem?_cons_zero, Option.some.injEq, Prod.mk.injEq] at hp hc
+        obtain ⟨rfl, rfl⟩ := hp
+        subst hc
+        simp [withDraws, runHistory, SrpServer.verifyReconnectionAttempt]
+      | succ k =>
+        simp only [List.getElem?_cons_succ] at hp hc
+        simp only [withDraws, List.zipWith_cons_cons, runHistory, List.getElem?_cons_succ]
+        have := ih (s.verifyReconnectionAttempt C cd0 proof0 d).2 ds (by simpa using hl) k hp
+          (by cases k <;> simpa [SrpServer.verifyReconnectionAttempt] using hc)
+        simpa [withDraws, SrpServer.verifyReconnectionAttempt] using this
+
+/-- **a captured pair is never accepted a second time when the draws are distinct** (self-contained:
+    the only hypotheses are about the RNG stream and about which pair is presented where).
+    `pairs` are the `(client challenge, proof)` pairs presented, in order, to one server object `s`;
+    the server's challenges come from the stream `rng` (`runHistoryRng`). If the login challenge and
+    the draws `r₀, r₁, …` (the consecutive 16-byte segments of the stream, `drawList`) are pairwise
+    distinct, then ANY pair `(cd, proof)` that is accepted at position `i` and presented again at any other
+    position `j ≠ i` (earlier or later) is refused there — or the two hash inputs below, which differ
+    exactly in the challenge that was on offer, are an explicit SHA-1 collision pair. -/
+theorem C05_replay_refused_when_draws_distinct (C : Crypto) (s : SrpServer)
+    (pairs : List (Bytes × Bytes)) (rng rest : Bytes) (verdicts : List Bool)
+    (hrun : runHistoryRng C s pairs rng = some (verdicts, rest))
+    (hdistinct : (s.reconnectChallengeData :: drawList pairs.length rng).Pairwise (· ≠ ·))
+    (i j : Nat) (hij : i ≠ j) (cd proof : Bytes)
+    (hpi : pairs[i]? = some (cd, proof)) (hpj : pairs[j]? = some (cd, proof))
+    (hacc : verdicts[i]? = some true) :
+    verdicts[j]? = some false ∨
+    ∃ c_i c_j m₁ m₂,
+      (s.reconnectChallengeData :: drawList pairs.length rng)[i]? = some c_i ∧
+      (s.reconnectChallengeData :: drawList pairs.length rng)[j]? = some c_j ∧ c_i ≠ c_j ∧
+      m₁ = s.username.asRef ++ cd ++ c_i ++ s.sessionKey ∧
+      m₂ = s.username.asRef ++ cd ++ c_j ++ s.sessionKey ∧ m₁ ≠ m₂ ∧ C.sha1 m₁ = C.sha1 m₂ := by
+  rw [C05_history_rng] at hrun
+  split at hrun
+  · cases hrun
+  · simp only [Option.some.injEq, Prod.mk.injEq] at hrun
+    obtain ⟨hv, _⟩ := hrun
+    subst hv
+    have hi : i < pairs.length := by
+      rcases Nat.lt_or_ge i pairs.length with h | h
+      · exact h
+      · rw [List.getElem?_eq_none h] at hpi; cases hpi
+    have hj : j < pairs.length := by
+      rcases Nat.lt_or_ge j pairs.length with h | h
+      · exact h
+      · rw [List.getElem?_eq_none h] at hpj; cases hpj
+    have hli : i < (s.reconnectChallengeData :: drawList pairs.length rng).length := by
+      simp; omega
+    have hlj : j < (s.reconnectChallengeData :: drawList pairs.length rng).length := by
+      simp; omega
+    have hci := List.getElem?_eq_getElem hli
+    have hcj := List.getElem?_eq_getElem hlj
+    have hne : (s.reconnectChallengeData :: drawList pairs.length rng)[i] ≠
+        (s.reconnectChallengeData :: drawList pairs.length rng)[j] := by
+      rcases Nat.lt_or_gt_of_ne hij with h | h
+      · exact List.pairwise_iff_getElem.1 hdistinct i j hli hlj h
+      · exact fun e => List.pairwise_iff_getElem.1 hdistinct j i hlj hli h e.symm
+    rw [runHistory_withDraws_getElem? C s pairs _ (drawList_length _ _) i cd proof _ hpi hci] at hacc
+    rw [runHistory_withDraws_getElem? C s pairs _ (drawList_length _ _) j cd proof _ hpj hcj]
+    simp only [Option.some.injEq, beq_iff_eq] at hacc
+    by_cases hb : calculateReconnectProof C s.username.asRef cd
+        (s.reconnectChallengeData :: drawList pairs.length rng)[j] s.sessionKey = proof
+    · right
+      refine ⟨_, _, _, _, hci, hcj, hne, rfl, rfl, ?_, ?_⟩
+      · intro heq
+        simp only [List.append_assoc] at heq
+        exact hne (List.append_cancel_right (List.append_cancel_left (List.append_cancel_left heq)))
+      · exact hacc.trans hb.symm
+    · left
+      simp only [Option.some.injEq, beq_eq_false_iff_ne, ne_eq]
+      exact hb
+
+/-- **the hypothesis is necessary** (general form): if the SAME challenge is on offer before attempts
+    `i` and `j` — the RNG repeated a 128-bit value, or repeated the login challenge — then the same pair
+    gets the same verdict at both positions; in particular a pair accepted at `i` is accepted at `j` -/
+theorem C05_replay_accepted_when_offers_equal (C : Crypto) (s : SrpServer)
+    (pairs : List (Bytes × Bytes)) (rng rest : Bytes) (verdicts : List Bool)
+    (hrun : runHistoryRng C s pairs rng = some (verdicts, rest))
+    (i j : Nat) (cd proof c : Bytes)
+    (hci : (s.reconnectChallengeData :: drawList pairs.length rng)[i]? = some c)
+    (hcj : (s.reconnectChallengeData :: drawList pairs.length rng)[j]? = some c)
+    (hpi : pairs[i]? = some (cd, proof)) (hpj : pairs[j]? = some (cd, proof)) :
+    verdicts[j]? = verdicts[i]? ∧ (verdicts[i]? = some true → verdicts[j]? = some true) := by
+  rw [C05_history_rng] at hrun
+  split at hrun
+  · cases hrun
+  · simp only [Option.some.injEq, Prod.mk.injEq] at hrun
+    obtain ⟨hv, _⟩ := hrun
+    subst hv
+    have h : (runHistory C s (withDraws pairs (drawList pairs.length rng)))[j]? =
+        (runHistory C s (withDraws pairs (drawList pairs.length rng)))[i]? := by
+      rw [runHistory_withDraws_getElem? C s pairs _ (drawList_length _ _) i cd proof c hpi hci,
+        runHistory_withDraws_getElem? C s pairs _ (drawList_length _ _) j cd proof c hpj hcj]
+    exact ⟨h, fun hacc => h.trans hacc⟩
+
+/-- **the hypothesis is necessary** (as asked): if two draws are equal, `r_i = r_j`, the pair accepted
+    at position `i + 1` (where `r_i` is on offer) is accepted at position `j + 1` as well -/
+theorem C05_replay_accepted_when_draws_equal (C : Crypto) (s : SrpServer)
+    (pairs : List (Bytes × Bytes)) (rng rest : Bytes) (verdicts : List Bool)
+    (hrun : runHistoryRng C s pairs rng = some (verdicts, rest))
+    (i j : Nat) (cd proof r : Bytes)
+    (hri : (drawList pairs.length rng)[i]? = some r) (hrj : (drawList pairs.length rng)[j]? = some r)
+    (hpi : pairs[i + 1]? = some (cd, proof)) (hpj : pairs[j + 1]? = some (cd, proof))
+    (hacc : verdicts[i + 1]? = some true) :
+    verdicts[j + 1]? = some true :=
+  (C05_replay_accepted_when_offers_equal C s pairs rng rest verdicts hrun (i + 1) (j + 1) cd proof r
+    (by simpa using hri) (by simpa using hrj) hpi hpj).2 hacc
+
 /-! ### non-vacuity -/
 section
 private def u : NStr := ⟨[0x41, 0,0,0,0,0,0,0,0,0,0,0,0,0,0,0], 1⟩
@@ -296,6 +516,46 @@ example : cd0.length = 16 ∧ srv.reconnectChallengeData.length = 16 ∧ c1.leng
     srv.sessionKey.length = 40 ∧ srv.reconnectChallengeData ≠ c1 ∧
     (srv.verifyReconnectionAttempt Cconst cd0
       (calculateReconnectProof Cconst srv.username.asRef cd0 c1 srv.sessionKey) c1).1 = true := by decide
+
+private def c2 : Bytes := List.replicate 16 11
+private def fourTimes : List (Bytes × Bytes) := [(cd0, good0), (cd0, good0), (cd0, good0), (cd0, good0)]
+
+/-- `C05_replay_refused_when_draws_distinct` on the real SHA-1: the stream hands out `r₀ = c1`,
+    `r₁ = c2`, `r₂ = 10×16`, all different from each other and from the login challenge `c0` (the
+    hypothesis holds), the stream is long enough, and the pair accepted at position 0 is refused at
+    positions 1 and 2; 48 bytes are consumed and the rest of the stream is left alone -/
+example :
+    (srv.reconnectChallengeData ::
+      drawList (fourTimes.take 3).length (c1 ++ c2 ++ List.replicate 16 10 ++ [1, 2])).Pairwise (· ≠ ·) ∧
+    runHistoryRng Crypto.real srv (fourTimes.take 3) (c1 ++ c2 ++ List.replicate 16 10 ++ [1, 2]) =
+        some ([true, false, false], [1, 2]) := by
+  refine ⟨by decide, by decide +kernel⟩
+
+/-- **the distinctness hypothesis is necessary**, on the real SHA-1: the stream repeats a draw,
+    `r₀ = r₂ = c0` (and `r₀` also repeats the login challenge). The pair that answers `c0`, accepted at
+    position 1 (where `r₀` is on offer), is accepted again at position 3 (where `r₂ = r₀` is on offer);
+    at position 2, where the different draw `r₁ = c1` is on offer, it is refused -/
+example : runHistoryRng Crypto.real srv fourTimes (c0 ++ c1 ++ c0 ++ c1) =
+    some ([true, true, false, true], []) := by decide +kernel
+
+/-- the same through `C05_replay_accepted_when_draws_equal` (i = 0, j = 2): its hypotheses are
+    jointly satisfiable and it predicts the acceptance at position 3 -/
+example (verdicts : List Bool) (rest : Bytes)
+    (hrun : runHistoryRng Crypto.real srv fourTimes (c0 ++ c1 ++ c0 ++ c1) = some (verdicts, rest))
+    (hacc : verdicts[1]? = some true) : verdicts[3]? = some true :=
+  C05_replay_accepted_when_draws_equal Crypto.real srv fourTimes _ rest verdicts hrun 0 2 cd0 good0 c0
+    (by decide) (by decide) (by decide) (by decide) hacc
+
+/-- a stream that is too short: the run stops (no verdict list) -/
+example : runHistoryRng Crypto.real srv fourTimes (c0 ++ c1 ++ c0) = none := by decide +kernel
 end
+
+#print axioms C05_challenge_width
+#print axioms C05_draws_are_segments
+#print axioms C05_draws_width
+#print axioms C05_history_rng
+#print axioms C05_replay_refused_when_draws_distinct
+#print axioms C05_replay_accepted_when_offers_equal
+#print axioms C05_replay_accepted_when_draws_equal
 
 end WowSrp
